@@ -179,8 +179,14 @@ class DtypeInterp:
             if fi.cls is not None and d and d.startswith(fi.cls.name + "."):
                 v = self.prog.class_const(fi.cls, d.split(".", 1)[1], default=UNK)
                 return v
+            if d in ("np.int8", "np.int16", "np.int32", "np.int64", "np.uint8", "np.uint16", "np.uint32", "np.uint64", "np.complex64", "np.complex128", "np.bool_"):
+                return getattr(np, d[3:])
             base = self._eval(fi, e.value, env, depth, sattrs)
             if isinstance(base, np.ndarray) and e.attr in ("real", "imag", "T"):
+                return getattr(base, e.attr)
+            if isinstance(base, np.ndarray) and e.attr == "dtype":
+                return base.dtype            # the witness carries the dtype
+            if isinstance(base, np.dtype) and e.attr in ("kind", "itemsize", "char", "name"):
                 return getattr(base, e.attr)
             return UNK
         if isinstance(e, ast.Tuple):
@@ -208,7 +214,29 @@ class DtypeInterp:
             r = self._eval(fi, e.comparators[0], env, depth, sattrs)
             if isinstance(l, np.ndarray) or isinstance(r, np.ndarray):
                 return np.empty(0, dtype=bool)
+            if len(e.ops) == 1 and isinstance(l, (str, np.dtype)) and isinstance(r, (str, np.dtype, tuple)) and l is not UNK and r is not UNK:
+                # a test of the dtype (its kind, itself): decided by the witness
+                try:
+                    if isinstance(e.ops[0], ast.Eq):
+                        return bool(l == r)
+                    if isinstance(e.ops[0], ast.NotEq):
+                        return bool(l != r)
+                    if isinstance(e.ops[0], ast.In):
+                        return l in r
+                    if isinstance(e.ops[0], ast.NotIn):
+                        return l not in r
+                except Exception:
+                    return UNK
             return UNK        # configuration-dependent: explore both ways
+        if isinstance(e, ast.BoolOp) and all(not isinstance(v_, ast.Compare) or True for v_ in e.values):
+            vals = [self._eval(fi, v_, env, depth, sattrs) for v_ in e.values]
+            if all(isinstance(v_, bool) for v_ in vals):
+                return all(vals) if isinstance(e.op, ast.And) else any(vals)
+            if isinstance(e.op, ast.And) and any(v_ is False for v_ in vals):
+                return False
+            if isinstance(e.op, ast.Or) and any(v_ is True for v_ in vals):
+                return True
+            return UNK
         if isinstance(e, ast.BoolOp):
             return UNK
         if isinstance(e, ast.Subscript):
@@ -293,6 +321,17 @@ class DtypeInterp:
             dt = kw.get("dtype", args[1] if len(args) > 1 else np.float64)
             try:
                 return np.empty(0, dtype=dt)
+            except Exception:
+                return UNK
+        if cn in ("np.zeros_like", "np.empty_like", "np.ones_like", "np.full_like") and args and isinstance(args[0], np.ndarray):
+            dt = kw.get("dtype")
+            try:
+                return np.empty(0, dtype=dt if dt is not None and dt is not UNK else args[0].dtype)
+            except Exception:
+                return UNK
+        if cn == "np.result_type" and args and not kw:
+            try:
+                return np.result_type(*[a.dtype if isinstance(a, np.ndarray) else a for a in args]) if not any(a is UNK for a in args) else UNK
             except Exception:
                 return UNK
         if cn == "np.piecewise" and args:
@@ -612,10 +651,20 @@ def _referenced_region(prog, fi, depth=2):
     return out
 
 
+_PROG = [None]      # the program being analysed (set by the rules that resolve module constants)
+
+
 def _np_dtype_of_canon(v):
     """numpy dtype denoted by a canonical value  numpy.dtype(<const>)  or a dtype string constant, else None"""
     import numpy as np
     try:
+        if isinstance(v, tuple) and len(v) == 2 and v[0] in ("global", "name") and _PROG[0] is not None:
+            # a dtype built once at import time: the one module constant of that name
+            defs = [m.assigns[v[1]] for m in _PROG[0].modules.values() if v[1] in m.assigns]
+            if len(defs) == 1 and isinstance(defs[0], ast.Call) and (call_name(defs[0]) or "").endswith("dtype") and defs[0].args \
+                    and isinstance(defs[0].args[0], ast.Constant):
+                return np.dtype(defs[0].args[0].value)
+            return None
         if isinstance(v, tuple) and v and v[0] == "call" and str(v[1]).endswith("dtype") and v[2] and v[2][0][0] == "const":
             return np.dtype(v[2][0][1])
         if isinstance(v, tuple) and v and v[0] == "ext" and v[1].startswith("numpy."):
@@ -631,6 +680,7 @@ def dt3(ctx, R):
     from .sym import Sym, show, eval_cond
     from .sem import leaves, flat_conds, find, W
     prog = ctx.prog
+    _PROG[0] = prog
     rd = prog.func("tdms.TdmsChannel._raw_data_dtype")
     gr = prog.func("channel_data.get_data_receiver")
     DT = ("self", "data_type")
@@ -869,6 +919,43 @@ def ln1(ctx, R):
     calls = [c for c in walk_body(bi.node) if isinstance(c, ast.Call) and call_reaches(ctx, bi, c, {nsv.qual})]
     R.check(bool(calls), "reader.TdmsReader._build_index::uses the funnel", bi.where(), "lazy index counts through _number_of_segment_values",
             "the lazy offset index computes per-segment counts by other means than _number_of_segment_values")
+    # a count recorded for segment i is computed in round i: in a loop over the segments, what is stored under the loop's own index
+    # must not be a value left over from an earlier round (a memo over neighbouring segments forgets what else the count depends on,
+    # e.g. the truncated final chunk)
+    cfg = ctx.cfg(bi)
+    n_tab = 0
+    for loop in [n for n in walk_body(bi.node) if isinstance(n, ast.For)]:
+        idx = None
+        if isinstance(loop.iter, ast.Call) and call_name(loop.iter) == "enumerate" and isinstance(loop.target, ast.Tuple) and loop.target.elts \
+                and isinstance(loop.target.elts[0], ast.Name):
+            idx = loop.target.elts[0].id
+        elif isinstance(loop.iter, ast.Call) and call_name(loop.iter) == "range" and isinstance(loop.target, ast.Name):
+            idx = loop.target.id
+        if idx is None:
+            continue
+        inside = lambda x: any(y is x for y in ast.walk(loop))
+        for st in [n for n in ast.walk(loop) if isinstance(n, ast.Assign) and len(n.targets) == 1 and isinstance(n.targets[0], ast.Subscript)
+                   and isinstance(n.targets[0].slice, ast.Name) and n.targets[0].slice.id == idx]:
+            n_tab += 1
+            stale = None
+            for nm in sorted({x.id for x in ast.walk(st.value) if isinstance(x, ast.Name)}):
+                defs = [a for a in ast.walk(loop) if isinstance(a, (ast.Assign, ast.AugAssign, ast.AnnAssign)) and any(
+                    isinstance(t, ast.Name) and t.id == nm for t in (a.targets if isinstance(a, ast.Assign) else [a.target]))]
+                if not defs or nm == idx:
+                    continue
+                dn = set(cfg.where(lambda n: n.kind == "stmt" and any(n.ast is d for d in defs)))
+                sn = cfg.where(lambda n: n.kind == "stmt" and n.ast is st)
+                for h in cfg.where(lambda n: n.kind == "for" and n.ast is loop):
+                    starts = [m for m, k in h.succ if k == "loop" and m not in dn]
+                    r = cfg.reach(starts, avoid=lambda n: n in dn, follow_exc=False) if starts else set()
+                    if any(x in r for x in sn):
+                        stale = nm
+            key = "%s::entry %s of the per-segment table" % (bi.qual, idx)
+            if stale:
+                R.violation(key, bi.where(st), "`%s` can store a value of `%s` that was computed in an earlier round of the loop over the segments: the count of a "
+                            "segment is taken over from a neighbour instead of being computed for this segment" % (unparse(st)[:60], stale))
+            else:
+                R.ok(key, bi.where(st), "what is stored under the loop's index is computed in the same round")
     # no other place multiplies number_values by a chunk count
     others = []
     for f in prog.functions.values():
